@@ -40,8 +40,8 @@ CHECKS = {
    text="Seeded search over concurrent client operation sequences and schedules of the real MemFs/DirFs code under the deterministic scheduler; each history (event-sequence-stamped invoke/return, final read-back of every name) is checked with porcupine against the filesystem reference model, plus distinct-descriptor, no-deadlock and (in a -race build under the same kind of schedules) no-data-race oracles. Sampling, not proof.",
    tech="deterministic simulation: seeded schedule search + porcupine linearizability vs filesystem model + race detector under controlled schedules"),
  "C16": dict(cat="exploration", ref="8.7",
-   text="Seeded search over timeout values, call sequences and relative timings of Signal/Broadcast/plain waiters for the real machine.WaitTimeout (and the primitive dependency it delegates to) under testing/synctest's fake clock: lock held on return, return within 1 ms of simulated time after the timeout or after the wake-up that reaches it, no panic, bubble drains. Decides only the WaitTimeout clause; the three pure clauses (UInt64ToString, MapClear, Assume/Assert) have no schedule, clock or fault in them and are covered only by auxiliary plain assertions that no exploration count includes. One recorded finding (stale waiter after a timed-out call) is reported as KNOWN-FINDING.",
-   tech="deterministic simulation of time: testing/synctest fake clock (go1.26.8), seeded timing plans vs an ideal timed-wait model",
+   text="Seeded search over timeout values, call sequences and relative timings of Signal/Broadcast/plain waiters for the real machine.WaitTimeout (and the primitive dependency it delegates to) under testing/synctest's fake clock, and again (sim flavour) with the implementation itself - machine/prims.go and the primitive dependency - compiled against simulated sync, time, channels and select and run under the deterministic scheduler so that every interleaving inside WaitTimeout is decided by the seed: lock held on return, return within 1 ms of simulated time after the timeout or after the wake-up that reaches it, no panic, bubble drains. Decides only the WaitTimeout clause; the three pure clauses (UInt64ToString, MapClear, Assume/Assert) have no schedule, clock or fault in them and are covered only by auxiliary plain assertions that no exploration count includes. One recorded finding (stale waiter after a timed-out call) is reported as KNOWN-FINDING.",
+   tech="deterministic simulation: (a) testing/synctest fake clock with seeded timing plans, (b) full simrt simulation of the WaitTimeout implementation (simulated sync/time/channels), both vs an ideal timed-wait model",
    note="Trusted: testing/synctest's fake clock and quiescence detection; goroutine choice inside a bubble is the Go runtime's, events are placed at distinct simulated instants and exact ties are counted as inconclusive. The pure clauses of C16 are not decided by simulation."),
  "C06": dict(cat="exploration", ref="8.8",
    text="Seeded search over sets/orders/repetitions of co-translated packages, flag combinations, schedules of the per-package worker goroutines (yield at every function entry of the real translator and printer) and map-iteration permutations; every package's output and error list must be byte-identical to a golden translation of that package alone on the sequential schedule, in its own result slot; a -race build checks the workers for data races under the same kind of schedules; one plan in sixteen runs the instrumented cmd/goose binary itself (exit status, stderr, written files). Sampling, not proof.",
